@@ -204,6 +204,9 @@ def decode_uf2(data):
                 main = k
                 break
     g = fam[main]
+    if len(order) == 1 and g["mem"] and min(g["mem"]) == 0x10ffff00 and set(g["mem"].values()) <= {0xef, 0x00}:
+        # an empty program: the file holds nothing but the filler block
+        g = {"mem": {}, "blocks": g["blocks"], "nblk": g["nblk"]}
     meta["family"] = main
     meta["other_families"] = [k for k in fam if k != main]
     if len(g["nblk"]) != 1:
